@@ -8,6 +8,8 @@
 (*     rows  : the captured screen, top to bottom, one text (sequence of cells) per row, trailing blanks removed   *)
 (* Verdict: the screen is exactly Render(st, geometry, cfg).  Only where an inline info text has no room left      *)
 (* beside the query (its clipping is not modelled) the prompt row is held to the documented claims alone.          *)
+(* A screen that differs from Render exactly by FzfScreen's named deviation is reported as "known ..." (still a    *)
+(* mismatch: the check matches it against known_findings.json).                                                    *)
 EXTENDS FzfScreen, Json, IOUtils
 
 TraceLog == ndJsonDeserialize(IOEnv.TRACE)
@@ -29,7 +31,9 @@ Verdict(r) ==
        ELSE IF r.maxItems # MaxItems(g, c) THEN "maxitems"
        ELSE IF Len(r.rows) # g.h THEN "height"
        ELSE IF ExactDomain(s, g, c)
-            THEN (IF r.rows = R THEN "ok" ELSE "exact " \o FailedClaims(r.rows, s, g, c))
+            THEN (IF r.rows = R THEN "ok"
+                  ELSE IF DevInfoTail(r.rows, s, g, c) THEN "known info-tail-not-cleared"
+                  ELSE "exact " \o FailedClaims(r.rows, s, g, c))
             ELSE IF \A i \in 1..g.h : SlotAt(i - 1, g, c).kind = "prompt" \/ r.rows[i] = R[i]
                  THEN (IF Claims(r.rows, s, g, c) THEN "ok" ELSE "claims " \o FailedClaims(r.rows, s, g, c))
                  ELSE "exact " \o FailedClaims(r.rows, s, g, c)
